@@ -7,6 +7,11 @@
  *   fmt = pixman format name, optionally "+r" (REPEAT_NORMAL set on the image), or "solid"
  *   (solid fill whose 8-bit a8r8g8b8 colour is the value), maskfmt "none" = no mask).
  * Reply line:    the destination pixel afterwards, restricted to the bits the format defines.
+ * WIDE ROWS: a line may carry a 9th token  @id,w,h,sx,sy,mx,my,dx,dy : the w*h consecutive lines with that token are the
+ *   pixels (row-major) of ONE composite of a w x h rectangle taken at (sx,sy) of the source image, (mx,my) of the mask image
+ *   and written at (dx,dy) of the destination image (images are larger than the rectangle; everything outside it holds a
+ *   fixed pattern and the destination must keep it).  w is chosen around the width at which general_composite_rect's three
+ *   scanline buffers stop fitting its 24 KiB stack buffer (2045 pixels in the 8-bit pipeline).
  * Consecutive lines with the same configuration form one 1-row composite of that many pixels
  * (so SIMD head/body/tail code runs on mixed neighbours).  The implementation chain is whatever
  * PIXMAN_DISABLE selects for this process.
@@ -279,38 +284,133 @@ static void emit_batch(batch_t *b, FILE *fi, FILE *fr)
         fprintf(fr, "%u\n", b->out[i]);
     }
 }
+/* spec oracle for one pixel; `line` = 1-based request line */
+static void oracle_px(int op, int ca, pres_t src, pres_t mask, pres_t dst, uint32_t sraw, uint32_t mraw, uint32_t draw, uint32_t out, long line, FILE *fo)
+{
+    pixman_format_code_t df = FMTS[dst.fmt].code;
+    uint32_t def = defined_bits(df);
+    uint32_t s = fetch_pres(src, sraw);
+    uint32_t m = mask.fmt == NONE ? 0 : fetch_pres(mask, mraw);
+    uint32_t d = spec_fetch(df, draw);
+    int has_mask = mask.fmt != NONE;
+    if (is_pd(op)) {
+        uint32_t want = spec_store(df, spec_pd(op, s, has_mask, ca, m, d)) & def;
+        if (want != out)
+            fprintf(fo, "ORACLE %ld spec %u got %u (fetched s=%08x m=%08x d=%08x)\n", line, want, out, s, m, d);
+    } else if (is_blend(op)) {
+        int neg = 0;
+        uint32_t px = spec_blend_exact(op, s, has_mask, ca, m, d, &neg);
+        uint32_t want = spec_store(df, px) & def;
+        n_blend_exact++;
+        if (neg)
+            fprintf(fo, "ORACLE %ld blend negative numerator (fetched s=%08x m=%08x d=%08x)\n", line, s, m, d);
+        else if (want != out)
+            fprintf(fo, "ORACLE %ld blend exact integer rule %u got %u (fetched s=%08x m=%08x d=%08x)\n", line, want, out, s, m, d);
+        else if (PIXMAN_FORMAT_BPP(df) == 32 && PIXMAN_FORMAT_A(df) == 8) {
+            /* only where the store loses nothing: compare the stored channels with the real-valued equation */
+            uint32_t got = spec_fetch(df, out); char why[160];
+            n_blend_real++;
+            if (!spec_blend_real(op, s, has_mask, ca, m, d, got, why))
+                fprintf(fo, "ORACLE %ld blend %s (fetched s=%08x m=%08x d=%08x)\n", line, why, s, m, d);
+        }
+    }
+}
 /* spec oracle over a finished batch; lineno = number of lines before this batch */
 static void oracle_batch(batch_t *b, FILE *fo)
 {
-    pixman_format_code_t df = FMTS[b->dst.fmt].code;
-    uint32_t def = defined_bits(df);
-    for (int i = 0; i < b->n; i++) {
-        uint32_t s = fetch_pres(b->src, b->s[i]);
-        uint32_t m = b->mask.fmt == NONE ? 0 : fetch_pres(b->mask, b->m[i]);
-        uint32_t d = spec_fetch(df, b->d[i]);
-        int has_mask = b->mask.fmt != NONE;
-        if (is_pd(b->op)) {
-            uint32_t want = spec_store(df, spec_pd(b->op, s, has_mask, b->ca, m, d)) & def;
-            if (want != b->out[i])
-                fprintf(fo, "ORACLE %ld spec %u got %u (fetched s=%08x m=%08x d=%08x)\n", lineno + i + 1, want, b->out[i], s, m, d);
-        } else if (is_blend(b->op)) {
-            int neg = 0;
-            uint32_t px = spec_blend_exact(b->op, s, has_mask, b->ca, m, d, &neg);
-            uint32_t want = spec_store(df, px) & def;
-            n_blend_exact++;
-            if (neg)
-                fprintf(fo, "ORACLE %ld blend negative numerator (fetched s=%08x m=%08x d=%08x)\n", lineno + i + 1, s, m, d);
-            else if (want != b->out[i])
-                fprintf(fo, "ORACLE %ld blend exact integer rule %u got %u (fetched s=%08x m=%08x d=%08x)\n", lineno + i + 1, want, b->out[i], s, m, d);
-            else if (PIXMAN_FORMAT_BPP(df) == 32 && PIXMAN_FORMAT_A(df) == 8) {
-                /* only where the store loses nothing: compare the stored channels with the real-valued equation */
-                uint32_t got = spec_fetch(df, b->out[i]); char why[160];
-                n_blend_real++;
-                if (!spec_blend_real(b->op, s, has_mask, b->ca, m, d, got, why))
-                    fprintf(fo, "ORACLE %ld blend %s (fetched s=%08x m=%08x d=%08x)\n", lineno + i + 1, why, s, m, d);
-            }
-        }
+    for (int i = 0; i < b->n; i++)
+        oracle_px(b->op, b->ca, b->src, b->mask, b->dst, b->s[i], b->mask.fmt == NONE ? 0 : b->m[i], b->d[i], b->out[i], lineno + i + 1, fo);
+}
+
+/* ---------------------------------------------------------------- wide rows (the rectangle is a window of larger images) */
+typedef struct { int op, ca; pres_t src, mask, dst; int w, h, sx, sy, mx, my, dx, dy; long id; int n, cap;
+                 uint32_t *s, *m, *d, *out; int outside_touched; char tok[96]; } wide_t;
+static long n_wide, n_wide_px;
+static void wide_reserve(wide_t *q, int n)
+{
+    if (n <= q->cap) return;
+    q->cap = n + 1024;
+    q->s = realloc(q->s, q->cap * 4u); q->m = realloc(q->m, q->cap * 4u); q->d = realloc(q->d, q->cap * 4u); q->out = realloc(q->out, q->cap * 4u);
+    if (!q->s || !q->m || !q->d || !q->out) { fprintf(stderr, "out of memory\n"); exit(3); }
+}
+static void put_px(void *bits, int stride, int bpp, int x, int y, uint32_t v)
+{
+    uint8_t *row = (uint8_t *)bits + (size_t)y * stride;
+    if (bpp == 32) ((uint32_t *)row)[x] = v; else if (bpp == 16) ((uint16_t *)row)[x] = (uint16_t)v; else row[x] = (uint8_t)v;
+}
+static uint32_t get_px(const void *bits, int stride, int bpp, int x, int y)
+{
+    const uint8_t *row = (const uint8_t *)bits + (size_t)y * stride;
+    return bpp == 32 ? ((const uint32_t *)row)[x] : bpp == 16 ? ((const uint16_t *)row)[x] : row[x];
+}
+/* image of (ox + w + 3) x (oy + h + 1) pixels, pattern 0xA5 everywhere, vals (row-major w x h) at (ox, oy) */
+static pixman_image_t *mk_window(pres_t p, int w, int h, int ox, int oy, const uint32_t *vals, void **store, int *stride_out, size_t *size_out)
+{
+    *store = NULL;
+    if (p.fmt == SOLID) {
+        uint32_t v = vals[0]; pixman_color_t c;
+        c.alpha = (v >> 24) * 0x101; c.red = ((v >> 16) & 0xff) * 0x101; c.green = ((v >> 8) & 0xff) * 0x101; c.blue = (v & 0xff) * 0x101;
+        return pixman_image_create_solid_fill(&c);
     }
+    pixman_format_code_t f = FMTS[p.fmt].code;
+    int bpp = PIXMAN_FORMAT_BPP(f), W = ox + w + 3, H = oy + h + 1;
+    int stride = ((W * bpp + 31) / 32) * 4;
+    size_t size = (size_t)stride * H;
+    uint8_t *bits = malloc(size + 16);
+    if (!bits) return NULL;
+    memset(bits, 0xA5, size + 16);
+    for (int j = 0; j < h; j++) for (int i = 0; i < w; i++) put_px(bits, stride, bpp, ox + i, oy + j, vals[j * w + i]);
+    *store = bits; *stride_out = stride; *size_out = size;
+    pixman_image_t *img = pixman_image_create_bits(f, W, H, (uint32_t *)bits, stride);
+    if (img && p.rep) pixman_image_set_repeat(img, PIXMAN_REPEAT_NORMAL);
+    return img;
+}
+static void run_wide(wide_t *q)
+{
+    void *sb = NULL, *mb = NULL, *db = NULL; int ss = 0, ms = 0, ds = 0; size_t sz = 0, mz = 0, dz = 0;
+    pixman_image_t *si = mk_window(q->src, q->w, q->h, q->sx, q->sy, q->s, &sb, &ss, &sz);
+    pixman_image_t *mi = q->mask.fmt == NONE ? NULL : mk_window(q->mask, q->w, q->h, q->mx, q->my, q->m, &mb, &ms, &mz);
+    pixman_image_t *di = mk_window(q->dst, q->w, q->h, q->dx, q->dy, q->d, &db, &ds, &dz);
+    if (!si || !di || (q->mask.fmt != NONE && !mi)) { fprintf(stderr, "image creation failed\n"); exit(3); }
+    if (mi && q->ca) pixman_image_set_component_alpha(mi, 1);
+    uint8_t *before = malloc(dz); memcpy(before, db, dz);
+    pixman_image_composite32((pixman_op_t)q->op, si, mi, di, q->sx, q->sy, q->mx, q->my, q->dx, q->dy, q->w, q->h);
+    pixman_format_code_t f = FMTS[q->dst.fmt].code;
+    int bpp = PIXMAN_FORMAT_BPP(f);
+    uint32_t def = defined_bits(f);
+    for (int j = 0; j < q->h; j++) for (int i = 0; i < q->w; i++) {
+        q->out[j * q->w + i] = get_px(db, ds, bpp, q->dx + i, q->dy + j) & def;
+        put_px(db, ds, bpp, q->dx + i, q->dy + j, get_px(before, ds, bpp, q->dx + i, q->dy + j));
+    }
+    q->outside_touched = memcmp(before, db, dz) != 0;      /* the rectangle was restored: any difference is outside it */
+    free(before);
+    pixman_image_unref(si); if (mi) pixman_image_unref(mi); pixman_image_unref(di);
+    free(sb); free(mb); free(db);
+    n_wide++; n_wide_px += q->n;
+}
+static void wide_token(wide_t *q) { sprintf(q->tok, "@%ld,%d,%d,%d,%d,%d,%d,%d,%d", q->id, q->w, q->h, q->sx, q->sy, q->mx, q->my, q->dx, q->dy); }
+static int parse_wide_token(const char *t, wide_t *q)
+{
+    if (strlen(t) >= sizeof q->tok) return 0;
+    if (sscanf(t, "@%ld,%d,%d,%d,%d,%d,%d,%d,%d", &q->id, &q->w, &q->h, &q->sx, &q->sy, &q->mx, &q->my, &q->dx, &q->dy) != 9) return 0;
+    strcpy(q->tok, t);
+    return q->w >= 1 && q->w <= 20000 && q->h >= 1 && q->h <= 8 && q->sx >= 0 && q->sy >= 0 && q->mx >= 0 && q->my >= 0 && q->dx >= 0 && q->dy >= 0 &&
+           q->sx <= 64 && q->sy <= 64 && q->mx <= 64 && q->my <= 64 && q->dx <= 64 && q->dy <= 64;
+}
+static void emit_wide(wide_t *q, FILE *fi, FILE *fr)
+{
+    char ss[64], ms[64], ds[64]; pres_str(q->src, ss); pres_str(q->mask, ms); pres_str(q->dst, ds);
+    for (int i = 0; i < q->n; i++) {
+        fprintf(fi, "%d %d %s %s %s %u %u %u %s\n", q->op, q->ca, ss, ms, ds, q->s[i], q->mask.fmt == NONE ? 0 : q->m[i], q->d[i], q->tok);
+        fprintf(fr, "%u\n", q->out[i]);
+    }
+}
+static void oracle_wide(wide_t *q, FILE *fo)
+{
+    for (int i = 0; i < q->n; i++)
+        oracle_px(q->op, q->ca, q->src, q->mask, q->dst, q->s[i], q->mask.fmt == NONE ? 0 : q->m[i], q->d[i], q->out[i], lineno + i + 1, fo);
+    if (q->outside_touched)
+        fprintf(fo, "ORACLE %ld outside destination pixels outside the %dx%d rectangle changed\n", lineno + 1, q->w, q->h);
 }
 
 /* ---------------------------------------------------------------- generators */
@@ -384,6 +484,39 @@ static void gen_c01(batch_t *b)
     }
 }
 
+/* one wide request: widths around the stack-buffer threshold of general_composite_rect (8-bit pipeline: 2045 px), x-varying
+ * pixels everywhere, non-zero and mutually different offsets into the three images, 1-2 rows */
+static void gen_wide(wide_t *q, long id)
+{
+    int cap = q->cap; uint32_t *s = q->s, *m = q->m, *d = q->d, *o = q->out;
+    memset(q, 0, sizeof *q); q->cap = cap; q->s = s; q->m = m; q->d = d; q->out = o;
+    q->id = id;
+    q->op = OPS8[rng_n(NOPS8)];
+    while (q->op == 0 || q->op == 2) q->op = OPS8[rng_n(NOPS8)];       /* CLEAR / DST say nothing about the operands */
+    q->src.fmt = rng_chance(8) ? SOLID : rng_chance(65) ? 0 : pick_fmt(1);
+    q->dst.fmt = rng_chance(65) ? 0 : pick_fmt(1);
+    int mk = rng_n(100);
+    if (mk < 15) q->mask.fmt = NONE;
+    else if (mk < 50) q->mask.fmt = rng_chance(80) ? 16 : pick_fmt(1);                    /* unified, mostly a8 */
+    else { q->ca = 1; q->mask.fmt = rng_chance(80) ? 0 : pick_fmt(1); }                   /* component alpha, mostly a8r8g8b8 */
+    int k = rng_n(100);
+    q->w = k < 70 ? 2040 + rng_n(11) : k < 85 ? 3000 : 4085 + rng_n(12);
+    q->h = 1 + rng_n(2);
+    q->sx = 1 + rng_n(9); q->mx = 1 + rng_n(9); q->dx = 1 + rng_n(9);
+    if (q->mx == q->sx) q->mx += 10;
+    if (q->dx == q->sx || q->dx == q->mx) q->dx += 21;
+    q->sy = rng_n(3); q->my = rng_n(3); q->dy = rng_n(3);
+    q->n = q->w * q->h;
+    wide_reserve(q, q->n);
+    uint32_t s0 = gen_argb();
+    for (int i = 0; i < q->n; i++) {
+        q->s[i] = raw_of(q->src, q->src.fmt == SOLID ? s0 : gen_argb());
+        q->m[i] = q->mask.fmt == NONE ? 0 : raw_of(q->mask, q->ca ? gen_ca_mask() : gen_argb());
+        q->d[i] = raw_of(q->dst, gen_argb());
+    }
+    wide_token(q);
+}
+
 /* C09: one logical request (opaque source and/or mask and/or destination content) shown in several
  * presentations; every presentation is a batch; results must agree on the colour channels. */
 static int c09_group(FILE *fi, FILE *fr, FILE *fo)
@@ -448,12 +581,17 @@ int main(int argc, char **argv)
         rng_seed(strtoull(argv[2], 0, 10)); long n = atol(argv[3]); int mode = atoi(argv[4]);
         FILE *fi = fopen(argv[5], "w"), *fr = fopen(argv[6], "w"), *fo = fopen(argv[7], "w");
         if (!fi || !fr || !fo) return 2;
+        wide_t wq; memset(&wq, 0, sizeof wq);
+        long wide_every = argc >= 9 ? atol(argv[8]) : 5000;         /* mode 0: one wide request per that many batches */
         for (long i = 0; i < n; i++) {
             if (mode == 1) { c09_group(fi, fr, fo); continue; }
+            if (wide_every > 0 && i % wide_every == wide_every / 2) {
+                gen_wide(&wq, n_wide + 1); run_wide(&wq); emit_wide(&wq, fi, fr); oracle_wide(&wq, fo); lineno += wq.n;
+            }
             batch_t b; gen_c01(&b);
             run_batch(&b); emit_batch(&b, fi, fr); oracle_batch(&b, fo); lineno += b.n;
         }
-        fprintf(fo, "STAT blend_exact %ld blend_real_compared %ld blend_real_premultiplied %ld\n", n_blend_exact, n_blend_real, n_blend_real_claim);
+        fprintf(fo, "STAT blend_exact %ld blend_real_compared %ld blend_real_premultiplied %ld wide_requests %ld wide_pixels %ld\n", n_blend_exact, n_blend_real, n_blend_real_claim, n_wide, n_wide_px);
         fclose(fi); fclose(fr); fclose(fo); return 0;
     }
     if (argc >= 4 && !strcmp(argv[1], "exec")) {
@@ -461,23 +599,42 @@ int main(int argc, char **argv)
         FILE *fo = argc >= 5 ? fopen(argv[4], "w") : NULL;
         char buf[512], key[256], prev[256] = ""; char *tok[16];
         batch_t b; memset(&b, 0, sizeof b);
+        wide_t wq; memset(&wq, 0, sizeof wq); int wactive = 0; char wkey[256] = "";
         #define FLUSH() do { if (b.n) { run_batch(&b); for (int q = 0; q < b.n; q++) fprintf(fr, "%u\n", b.out[q]); if (fo) oracle_batch(&b, fo); lineno += b.n; b.n = 0; } } while (0)
+        #define WFLUSH() do { if (wactive) { if (wq.n == wq.w * wq.h) { run_wide(&wq); for (int q = 0; q < wq.n; q++) fprintf(fr, "%u\n", wq.out[q]); if (fo) oracle_wide(&wq, fo); } \
+                                             else for (int q = 0; q < wq.n; q++) fprintf(fr, "bad-request\n"); lineno += wq.n; wactive = 0; wq.n = 0; } } while (0)
         while (fgets(buf, sizeof buf, fi)) {
             char copy[512]; strcpy(copy, buf);
             int nt = split(copy, tok, 16);
             batch_t nb; memset(&nb, 0, sizeof nb);
-            if (nt != 8 || !parse_pres(tok[2], &nb.src) || !parse_pres(tok[3], &nb.mask) || !parse_pres(tok[4], &nb.dst) || nb.src.fmt == NONE || nb.dst.fmt < 0) {
-                FLUSH(); prev[0] = 0; fprintf(fr, "bad-request\n"); lineno++; continue;
+            int is_wide = nt == 9 && tok[8][0] == '@';
+            if ((nt != 8 && !is_wide) || !parse_pres(tok[2], &nb.src) || !parse_pres(tok[3], &nb.mask) || !parse_pres(tok[4], &nb.dst) || nb.src.fmt == NONE || nb.dst.fmt < 0) {
+                FLUSH(); WFLUSH(); prev[0] = 0; fprintf(fr, "bad-request\n"); lineno++; continue;
             }
             snprintf(key, sizeof key, "%s %s %s %s %s", tok[0], tok[1], tok[2], tok[3], tok[4]);
+            if (is_wide) {
+                FLUSH(); prev[0] = 0;
+                if (!(wactive && !strcmp(tok[8], wq.tok) && !strcmp(key, wkey) && wq.n < wq.w * wq.h)) {
+                    WFLUSH();
+                    int cap = wq.cap; uint32_t *s_ = wq.s, *m_ = wq.m, *d_ = wq.d, *o_ = wq.out;
+                    memset(&wq, 0, sizeof wq); wq.cap = cap; wq.s = s_; wq.m = m_; wq.d = d_; wq.out = o_;
+                    if (!parse_wide_token(tok[8], &wq)) { fprintf(fr, "bad-request\n"); lineno++; continue; }
+                    wq.op = atoi(tok[0]); wq.ca = atoi(tok[1]); wq.src = nb.src; wq.mask = nb.mask; wq.dst = nb.dst;
+                    strcpy(wkey, key); wactive = 1;
+                }
+                wide_reserve(&wq, wq.n + 1);
+                wq.s[wq.n] = strtoul(tok[5], 0, 10); wq.m[wq.n] = strtoul(tok[6], 0, 10); wq.d[wq.n] = strtoul(tok[7], 0, 10); wq.n++;
+                continue;
+            }
+            WFLUSH();
             int solid_change = b.n && ((nb.src.fmt == SOLID && strtoul(tok[5], 0, 10) != b.s[0]) || (nb.mask.fmt == SOLID && strtoul(tok[6], 0, 10) != b.m[0]));
             if (strcmp(key, prev) || b.n >= 32 || solid_change) { FLUSH(); strcpy(prev, key); b = nb; b.op = atoi(tok[0]); b.ca = atoi(tok[1]); b.n = 0; }
             b.s[b.n] = strtoul(tok[5], 0, 10); b.m[b.n] = strtoul(tok[6], 0, 10); b.d[b.n] = strtoul(tok[7], 0, 10); b.n++;
         }
-        FLUSH();
-        if (fo) fprintf(fo, "STAT blend_exact %ld blend_real_compared %ld blend_real_premultiplied %ld\n", n_blend_exact, n_blend_real, n_blend_real_claim);
+        FLUSH(); WFLUSH();
+        if (fo) fprintf(fo, "STAT blend_exact %ld blend_real_compared %ld blend_real_premultiplied %ld wide_requests %ld wide_pixels %ld\n", n_blend_exact, n_blend_real, n_blend_real_claim, n_wide, n_wide_px);
         return 0;
     }
-    fprintf(stderr, "usage: composite gen <seed> <nbatches> <mode> <ops> <impl> <oracle> | composite exec <ops> <impl> [oracle]\n");
+    fprintf(stderr, "usage: composite gen <seed> <nbatches> <mode> <ops> <impl> <oracle> [wide_every] | composite exec <ops> <impl> [oracle]\n");
     return 2;
 }
